@@ -29,13 +29,13 @@ CLAIMED.update({
             "Random queries (kind x author filter x key filter x sort x direction x include-empty x offset x limit, plus point lookups) against states reached through pruning histories (stale index rows), clean restarts and derived-index rebuilds, compared with a brute-force evaluator over the RefDoc model. The simulator contributes the states; the decisive dimension for the query itself is input generation, which the evidence says.",
             "Latest-per-key with an author filter: documentation and code disagree on filter-before/after grouping and the statement is silent, so either reading is accepted for that one combination; ties in timestamp accept any tied entry.", "5 C05"),
     "C07": ("exploration", TECH,
-            "Histories of read/write capability imports (right and other documents), local/remote/in-message writes, open/close, clean restarts, flush+crash restarts and removal over 2-4 documents against the RefStore model: local writes succeed iff the model capability is Write, remote entries are accepted regardless, the listed capability never downgrades and never changes for another document.",
-            "Store-level (Replica/Store API); the actor's in-memory copy of the capability is exercised by the actor scenario of C14.", "5 C07"),
+            "Histories of read/write capability imports (right and other documents), local/remote/in-message writes, open/close, clean restarts, flush+crash restarts and removal over 2-4 documents against the RefStore model: local writes succeed iff the model capability is Write, remote entries are accepted regardless, the listed capability never downgrades and never changes for another document. A second batch drives the real store actor with imports while documents are open (the actor keeps its own in-memory copy of the capability) and judges the replies to writes, deletions, secret export and imports.",
+            "The actor batch was added after an independently seeded change (read-only import downgrading an open replica) was missed by the store-level batch alone.", "5 C07"),
     "C08": ("exploration", TECH,
             "The same two entry sets are reconciled over redb in-memory, SimDisk/file-backed redb and a harness-side BTreeMap backend that is driven by the crate's own reconciliation routine through a guarded adapter; postcard bytes of every message and the final sets must be identical; additionally get_first/get_range (all three shapes)/get_fingerprint/prefixes_of/remove_prefix_filtered are probed directly against the ordered-map definitions.",
             "The entry fingerprint function is re-implemented in the harness (a change of it is a wire-compatibility break and is reported).", "5 C08"),
     "C15": ("exploration", TECH,
-            "set/get_download_policy inside RefStore histories with clean restarts, flush+crash restarts, removal and re-creation: the policy read back equals the last one set, defaults otherwise, and is refused for a missing document; matching is compared with the brute-force definition (pure part, labelled).",
+            "set/get_download_policy inside RefStore histories with clean restarts, flush+crash restarts, removal and re-creation: the policy read back equals the last one set, defaults otherwise, and is refused for a missing document; matching and the textual form of filters are compared with the brute-force definition (pure part, labelled); a third batch checks the should_download flag of remote-insert events of the real store actor against the policy in force under policy changes.",
             "Crash restarts are always preceded by a flush here (loss of unflushed data is C06's subject).", "5 C15"),
     "C16": ("exploration", TECH,
             "Histories over 2-4 documents with adjacent ids: writes, policies, peers, open/close, remove (open and closed), re-create, restarts. Removal must be refused while open, leave no observable residue (entries, both query paths, heads, peers, policy, capability), leave every other document byte-identical, and content_hashes must equal the hashes of all held entries at every observation.",
@@ -50,20 +50,20 @@ CLAIMED.update({
 
 CLAIMED.update({
     "C04": ("exploration", TECH,
-            "2-5 nodes (SimDisk + store + real store actor, per-node skewed wall clock) take local writes and deletions; every local insert is broadcast through SimNet (deliver in any order, drop, duplicate, partition/heal) and applied by the remote-insert path as gossip::receive_loop does; sessions between pairs run over SimPipes frame by frame and are cut (EOF/reset) at any frame; nodes restart cleanly or crash (L1/L2). Then faults stop and complete sessions along a random spanning tree must reach a silent round within nodes+1 rounds, with all nodes equal to the merge of what they held; without crashes also equal to the merge of all acknowledged local writes; no node ever holds an entry nobody wrote.",
+            "2-5 nodes (SimDisk + store + real store actor, per-node skewed wall clock) take local writes and deletions; every local insert is broadcast through SimNet (deliver in any order, drop, duplicate, partition/heal) and applied by the remote-insert path as gossip::receive_loop does; sessions between pairs run over SimPipes frame by frame and are cut (EOF/reset) at any frame; nodes restart cleanly or crash (L1/L2). Then faults stop and complete sessions along a random spanning tree must reach a silent round within nodes+1 rounds, with all nodes equal to the merge of what they held; without crashes also equal to the merge of all acknowledged local writes; no node ever holds an entry nobody wrote. A second batch runs the same histories with clock skew far beyond the future bound and judges the safety oracles only.",
             "iroh-gossip delivery and QUIC are stubbed; the live actor's dial decisions are C11's subject. Clock skew is kept within the future bound (4 min).", "5 C04"),
     "C06": ("fault_enumeration", "deterministic simulation: per sampled history complete enumeration of crash points x loss models x age-commit placements on SimDisk, reference-model oracle",
             "For each sampled history on a persistent store the simulator enumerates every crash point (after every backend write / set_len / sync) under loss models L1 and L2 for every single placement of the age-based auto-commit at each internal store call of each operation (thorough: sampled L3/torn images, EIO/ENOSPC, more double placements); each reopened image must open, equal a state the live store passed through between two complete operations not older than the last flush/read, and have consistent lookups, query paths and heads.",
             "redb's commit protocol and recovery are trusted (crashes during the two writes that create the database are excluded). The histories themselves are sampled; the per-history crash x placement space is exhaustive.", "5 C06"),
     "C09": ("exploration", TECH,
-            "Stream part: real protocol messages are framed by the real codec and reach the real frame reader through a SimPipe under plan-chosen release sizes and read chunks, truncation after any byte, single-byte corruption and oversized length prefixes: clean streams must decode to the input, truncated ones to a prefix followed by end or error, oversized prefixes to an error, never a bogus message or a panic. Pure part (labelled, not simulation): round trips and hostile bytes for signed entries, author heads, tickets, capabilities, filters, policies; the three pinned encodings are recomputed.",
+            "Stream part: real protocol messages are framed by the real codec and reach the real frame reader through a SimPipe under plan-chosen release sizes and read chunks, truncation after any byte, single-byte corruption, oversized and understated length prefixes: clean streams must decode to the input, truncated ones to a prefix followed by end or error, oversized prefixes to an error or need-more-data, a frame whose prefix understates its payload to an error, never a bogus message or a panic. Pure part (labelled, not simulation): round trips and hostile bytes for signed entries, author heads, tickets, capabilities, filters, policies; the three pinned encodings are recomputed.",
             "Frames are produced as the sessions produce them (one FramedWrite::send per message).", "5 C09"),
     "C10": ("exploration", TECH,
             "The initiating or accepting side runs against a real local store actor over SimPipes; the other side is the real counterpart or a scripted peer sending up to 6 frames over {Init known/unknown, Sync, made-up ranges, Abort, garbage, oversized, truncated} then close; streams are chunked and cut (EOF/reset) after any byte in either direction; the local replica is closed, sync-disabled or its actor shut down before any delivered frame; the accept callback allows or declines. Oracles: no panic (including collecting the acceptor's outcome), termination once nothing is in flight, protocol-violating frames make the session fail, a declined request sends Abort and leaves the store unchanged, mutual success has mirrored counts.",
             "Mirrored counts are only demanded when no stream cut fired (a transport that accepts bytes, drops them and then signals a clean end cannot be detected by either end of this protocol).", "5 C10"),
     "C11": ("exploration", TECH,
-            "Two real LiveActors (real store actors; Endpoint/Gossip/blob store constructed but idle) in either id order; a guarded dial seam hands every dial to the driver which decides delivery, loss or breakage of each request, delivery or loss of declines, and independent ok/failed completion of both ends of each session, plus neighbour-up and sync-report events; safety after every step (no two sessions in progress, exactly one accept on a mutual simultaneous dial, exactly one follow-up dial after a refused news report, NotFound for unknown documents) and progress at quiescence (both idle, able to dial and to accept).",
-            "Connection handling of connect_and_sync / handle_connection is replaced by the seam; session results are synthetic. Changing which documents are syncing mid-session is outside the property's quantifier.", "5 C11"),
+            "Two real LiveActors (real store actors; Endpoint/Gossip/blob store constructed but idle) in either id order; a guarded dial seam hands every dial to the driver which decides delivery, loss or breakage of each request, delivery or loss of declines, and independent ok/failed completion of both ends of each session, plus neighbour-up and sync-report events; safety after every step (no two sessions in progress, exactly one accept on a mutual simultaneous dial, exactly one follow-up dial after a refused news report, NotFound for unknown documents) and progress at quiescence (both idle, able to dial and to accept). A second batch (coord-real) runs every dial as the real run_alice and every delivered request as the real BobState::run + into_outcome over SimPipes that the driver releases frame by frame, cuts or resets.",
+            "Connection handling of connect_and_sync / handle_connection is replaced by the seam (in coord the session results are synthetic, in coord-real they come from the real wire sessions). Changing which documents are syncing mid-session is outside the property's quantifier.", "5 C11"),
     "C12": ("exploration", TECH,
             "One real store actor with 0-4 subscribers (channel capacities 1-32) that the driver drains, pauses, unsubscribes or drops at plan-chosen instants (also while the actor is blocked sending to them); local inserts/deletions, valid/superseded/badly signed remote inserts, reconciliation messages interleaved with local writes, policy changes; every subscriber must have received exactly the applied entries, once, in application order, with the right variant, peer, content status and download flag.",
             "A subscriber that never drains is outside the documented contract and is not injected (paused ones are resumed when the actor blocks on them).", "5 C12"),
